@@ -23,20 +23,25 @@ TABLE = {
     "C05": ([("concBc", 200)], {"C05.send_limit"}, None),
     "C05b": ([("floodBs", 50)], {"C05.refuse"}, None),
     "C06": ([("flowBs", 200), ("flowBc", 200), ("mixA", 250)], {"C06.progress", "C03.stream_leak"}, None),
+    "C06b": ([("capWaitBc", 100), ("mixA", 250), ("flowBc", 200)], {"C06.progress", "C16.wait_woken", "C03.stream_leak"}, None),
     "C07": ([("goawayBc", 200)], {"C07.resolved"}, None),
     "C07b": ([("goawayBc", 200)], {"C07.resolved"}, None),
     "C08": ([("floodBs", 50)], {"C08.panic"}, None),
     "C09": ([("abuseB", 400)], {"C09.legal_not_penalised"}, "GOAWAY"),
     "C09b": ([("pushRaceBs", 150)], {"C09.legal_not_penalised"}, "GOAWAY"),
+    "C09c": ([("pushRaceBc", 150)], {"C09.legal_not_penalised"}, "GOAWAY"),
     "C14": ([("ctlB", 200)], {"C14.all_acked", "C14.settings_ack", "C14.pong"}, None),
     "C14b": ([("flowBc", 200), ("ctlB", 200)], {"C02.stream_credit"}, None),
     "C15": ([("shutdownBs", 200)], {"C15.graceful_completes"}, None),
+    "C15b": ([("goawayBc", 200)], {"C15.no_new_after_goaway_in", "C15.no_request_after_goaway", "C15.graceful_completes", "C07.resolved", "C15.conn_result", "C19.idle_close"}, None),
     "C16": ([("capRace", 200)], {"C16.pool"}, None),
     "C16b": ([("mixA", 250), ("flowBc", 200)], {"C16.wait_woken"}, None),
     "C17": ([("bpReset", 150)], {"C17.others_undisturbed"}, None),
     "C17b": ([("rstRaceBc", 150)], {"C17.peer_reset_overridden"}, None),
     "C18": ([("floodBs", 50)], {"C18.empty_data_bound", "C18.recv_buffer_bound"}, None),
+    "C18b": ([("floodBs", 50), ("abuseB", 400)], {"C18.quota_counters", "C18.store_bound", "C18.owed_replies_bound"}, None),
     "C19": ([("mixA", 250)], {"C19.slab_idle"}, "unlinked_record_kept_for_no_reason"),
+    "C19b": ([("cancelA", 300)], {"C16.pool", "C19.flow_idle", "C06.progress"}, None),
     "C20": ([("inlineA", 300)], {"C19.idle_close", "C20.deadlock"}, None),
 }
 ENGINES = {"C10": ("HPACK_HARNESS", "hpack"), "C11": ("HPACK_HARNESS", "hpack"), "C12": ("C12_CODEC", "codec"), "C13": ("C13_BIN", "")}
@@ -88,21 +93,22 @@ def main():
             if not os.path.exists(os.path.join(hz, "target", "debug", "sim")) or "error" in b.stdout:
                 rows.append((sd, "BUILD FAILED", b.stdout[-200:], 0)); print(sd, "build failed"); continue
             found = collections.Counter()
+            allr = collections.Counter()
             detail = ""
-            if sd in ENGINES:
-                var, exe = ENGINES[sd]
+            if sd[:3] in ENGINES:
+                var, exe = ENGINES[sd[:3]]
                 out = os.path.join(scratch, "engine_" + sd)
                 shutil.rmtree(out, ignore_errors=True); os.makedirs(out)
                 env = dict(os.environ)
                 env[var] = os.path.join(hz, "target", "debug", exe) if exe else os.path.join(hz, "target", "debug")
-                r = sh([os.path.join(VERIF, "bin", "engines", sd), "quick", "1", out], env=env)
+                r = sh([os.path.join(VERIF, "bin", "engines", sd[:3]), "quick", "1", out], env=env)
                 try:
                     res = json.load(open(os.path.join(out, "result.json")))
                     known = json.load(open(os.path.join(VERIF, "known_findings.json")))["findings"]
                     for v in res.get("violations", []):
                         kn = False
                         for k in known:
-                            if k["property"] == sd and k["rule"] == v["rule"]:
+                            if k["property"] == sd[:3] and k["rule"] == v["rule"]:
                                 m = k.get("match", {})
                                 if ("info" not in m or json.dumps(v.get("info")) == json.dumps(m["info"])) and ("info_contains" not in m or m["info_contains"] in json.dumps(v.get("info"))):
                                     kn = True
@@ -128,16 +134,22 @@ def main():
                         detail += "TLC failed on %s; " % fam
                         continue
                     for x in v["viols"]:
+                        if "--all" in sys.argv:
+                            allr[(fam, x["v"]["rule"], json.dumps(x["v"].get("info"))[:90])] += 1
                         if x["v"]["rule"] in rules and (sub is None or sub in json.dumps(x["v"].get("info"))):
                             found[x["v"]["rule"]] += 1
                 caught = sum(found.values()) > 0
             rows.append((sd, "caught" if caught else "MISSED", ", ".join("%s x%d" % kv for kv in found.most_common(4)) + (" " + detail if detail else ""), time.time() - t0))
             print(sd, rows[-1][1], rows[-1][2], "%.0fs" % rows[-1][3], flush=True)
+            for kk, nn in allr.most_common(25):
+                print("    ", nn, kk)
     finally:
         sh("git -C %s checkout -q -- ." % wt)
         sh("git -C %s worktree remove --force %s" % (REPO, wt))
         sh("git -C %s worktree prune" % REPO)
         shutil.rmtree(scratch, ignore_errors=True)
+    if args:
+        sys.exit(1 if [r for r in rows if r[1] != "caught"] else 0)   # partial runs do not rewrite the report
     with open(os.path.join(VERIF, "seeded", "REGRESSION.md"), "w") as f:
         f.write("# Seeded defects vs the current machinery\n\n")
         f.write("Produced by `tools/seed_regress.py` on %s against /repo HEAD %s (each patch applied to a scratch worktree, a scratch harness built against it,\n" % (time.strftime("%Y-%m-%d %H:%M UTC", time.gmtime()), head))
